@@ -229,7 +229,8 @@ def factory(params):
     def scenario(prefix, expect, visited=None, budget=0):
         return harness.run(lambda W: body(W, prog, mode), prefix,
                            tracing=True, expect=expect, horizon=30000,
-                           visited=visited, budget=budget)
+                           visited=visited, budget=budget if budget != 'replay' else 0,
+                           lenient=budget == 'replay')
     return scenario
 
 
@@ -282,7 +283,11 @@ def _run(ctx, ex, plan):
 def replay(ctx, case):
     harness.setup()
     scenario = factory(case['params'])
-    x = scenario(list(case['choices']), None, None, 0)
+    x = scenario(list(case['choices']), None, None, 'replay')
+    if getattr(x, 'diverged', False):
+        print('  note: the recorded schedule cannot be followed on this tree '
+              '(different choice points); what the execution did instead is '
+              'judged below')
     ctx.count()
     res = x.result or {}
     viol = list(res.get('violations', ()))
